@@ -314,8 +314,8 @@ func init() {
 			trip := [][]string{{"ToPostgres", "ToParam", "Parse"}, {"Render", "RenderParam", "String"}, {"Marshal", "Unmarshal", "Validate"}}
 			if tier != "thorough" {
 				pairs(func(a, b string) {
-					unit(1, "full", 0, 1, 3, a, b)   // 1 preemption anywhere, long query
-					unit(2, "mixed", 2, 1, 4, a, b)  // 2 preemptions: first anywhere, second at global-variable statements
+					unit(1, "full", 0, 1, 3, a, b)    // 1 preemption anywhere, long query
+					unit(2, "mixed", 2, 1, 4, a, b)   // 2 preemptions: first anywhere, second at global-variable statements
 					unit(3, "globals", 2, 1, 1, a, b) // 3 preemptions at global-variable statements
 				})
 				for _, t := range trip {
@@ -729,6 +729,10 @@ func c14Explore(w *core.Worker, ops []string, query string, bound int, gran stri
 	w.Tick(e.schedules)
 	w.Count("schedules", e.schedules)
 	w.Count("interleaved_schedules", interleaved)
+	if e.stalledRuns > 0 {
+		w.Count("schedules_completed_free_running_after_a_stall", e.stalledRuns)
+		w.Count("preemptions_skipped_at_known_stall_points", e.skippedStall)
+	}
 	if len(outcomes) > 1 {
 		w.Count("scenarios_with_several_outcomes", 1)
 	}
